@@ -3,6 +3,7 @@ import PdshVerif.Pcp.Spec
 import PdshVerif.Pcp.Session
 import PdshVerif.Pcp.Links
 import PdshVerif.Pcp.Statics
+import PdshVerif.Pcp.ClientStatics
 import Driver.Util
 
 /-! line protocol of the `pcp` engine (C11, C12): the receiver model `sink`, the sender model `send`,
@@ -19,6 +20,7 @@ the command-line construction and the two specifications, driven by checks/c11.p
     spec12 DESTPATH PATH...
     cmdf   PROG R P NENT DEST            cmdr PROG R P HOST FILE...
     norm   CWD STRING                    (lexical normal form of a path string)
+    cstatics                             (Pcp/ClientStatics.lean: the same for pcp_client.c, the client threads of a forward copy)
     statics ERRFPSHARED                  (Pcp/Statics.lean: the static objects of pcp_server.c the model accounts for, the
                                          process-wide libc calls it does not cover, and those it does)
 
@@ -353,6 +355,9 @@ def handle (line : String) : String :=
   | ["statics", e] =>
     s!"defs={commaJoin ((serverStatics (flag e)).map (·.1))} forbidden={commaJoin processWideCalls} " ++
       s!"modelled={commaJoin modelledProcessWideCalls}"
+  | ["cstatics"] =>
+    s!"defs={commaJoin clientStatics} forbidden={commaJoin clientProcessWideCalls} " ++
+      s!"expandonly={commaJoin clientExpandOnlyCalls}"
   | ["norm", cwd, s] =>
     match pathOfHex cwd, Hex.decode s with
     | some cwd, some s => hexOfPath (lexNorm cwd s)
